@@ -161,6 +161,11 @@ def _mh_proposal(key, state, step):
 
 
 def make_kernel(c):
+    if c.get("late_attrs"):
+        # the constants are set on the kernel object after construction (public attributes da_target_accept, da_gamma, da_kappa, da_t0)
+        ker = make_kernel(dict(c, late_attrs=False, delta=0.8 if c["kind"] in ("hmc", "nuts", "iwls") else 0.234, gamma=0.05, kappa=0.75, t0=10))
+        ker.da_target_accept, ker.da_gamma, ker.da_kappa, ker.da_t0 = c["delta"], c["gamma"], c["kappa"], c["t0"]
+        return ker
     kw = dict(da_target_accept=c["delta"], da_gamma=c["gamma"], da_kappa=c["kappa"], da_t0=c["t0"])
     k = c["kind"]
     if k == "rw":
@@ -194,7 +199,7 @@ def gen_engine():
         return {"kind": draw(st.sampled_from(KINDS)), "epochs": epochs, "chunk": chunk, "chains": 2, "seed": draw(st.integers(0, 2**20)),
                 "eps0": draw(st.sampled_from([0.05, 0.3, 1.0, 2.5])), "delta": draw(st.sampled_from([0.234, 0.6, 0.8])),
                 "gamma": draw(st.sampled_from([0.05, 0.1, 0.5])), "kappa": draw(st.sampled_from([0.75, 0.6, 0.9])),
-                "t0": draw(st.sampled_from([10, 3, 25])), "diag": draw(st.booleans())}
+                "t0": draw(st.sampled_from([10, 3, 25])), "diag": draw(st.booleans()), "late_attrs": draw(st.integers(0, 2)) == 0}
 
     return g()
 
